@@ -579,3 +579,116 @@ CONTRACTS += [
              regex_env={'rxA': 'none', 'rxB': {'mode': 'full'}},
              ensures=[('the-second-pattern-decides', 'result is env_matches("rxB")[0]')]),
 ]
+
+# ---- relative months: "from 4 to 22 next month", "the third of next month" wrap over the year boundary (C08)
+_SH = lambda k: f'shift_month(reference.year, reference.month, swift)[{k}]'
+_SCR_CFG = Config(tables=dict(month_of_year=Map('str', 'int', 1, 12), day_of_month=Map('str', 'int', 1, 31)),
+                  funcs=dict(get_swift_day_or_month=Returns(Expr('swift')), is_future=Returns(Const(True))))
+CONTRACTS += [
+    Contract('dp.dateperiod.simple_case.relative_month', BDP + '_parse_simple_case', ['C08'],
+             params=dict(swift=Int(-1, 1), d0s=Str(), d1s=Str(),
+                         self=Rec(DT + 'base_dateperiod.py::BaseDatePeriodParser', dict(config=_SCR_CFG, _inclusive_end_period=Const(False))),
+                         source=Str(), reference=DateTime(1950, 2090)),
+             requires=['d0s in self.config.day_of_month', 'd1s in self.config.day_of_month', f'{_SC_D0} <= {_SC_D1}', f'{_SC_D1} <= 28'],
+             regex_env={'month_front_between_regex': {'mode': 'full', 'groups': {'year': 'None', 'month': 'None', 'relmonth': '"rel"'},
+                                                      'captures': {'day': ['d0s', 'd1s']}}},
+             ensures=[('the-two-days-of-the-month-swift-months-from-the-reference-month',
+                       f'result.success and result.future_value[0] == date_with(ordinal({_SH(0)}, {_SH(1)}, {_SC_D0}), 0) and '
+                       f'result.future_value[1] == date_with(ordinal({_SH(0)}, {_SH(1)}, {_SC_D1}), 0) and '
+                       'result.past_value[0] == result.future_value[0] and result.past_value[1] == result.future_value[1]'),
+                      ('timex-names-that-month',
+                       f'result.timex == "(" + date_str({_SH(0)}, {_SH(1)}, {_SC_D0}) + "," + date_str({_SH(0)}, {_SH(1)}, {_SC_D1}) + '
+                       f'",P" + str({_SC_D1} - {_SC_D0}) + "D)"')],
+             note='a relative month word the culture classifies as future-anchored (is_future True: the year is then written out); '
+                  'swift -1..1 as returned by the culture tables'),
+    Contract('dp.number_with_month.relative_month', BD + 'parse_number_with_month', ['C08'],
+             params=dict(N=Int(1, 28), swift=Int(-1, 1),
+                         self=Rec(DT + 'base_date.py::BaseDateParser',
+                                  dict(config=Config(values=dict(check_both_before_after=Const(False),
+                                                                 ordinal_extractor=Config(funcs=dict(extract=Returns(ListOf(ER(), 1)))),
+                                                                 integer_extractor=Config(funcs=dict(extract=Returns(ListOf(ER(), 1)))),
+                                                                 number_parser=Config(funcs=dict(parse=Returns(_PARSE_NUM)))),
+                                                     funcs=dict(get_swift_month=Returns(Expr('swift')))))),
+                         source=Str(), reference=DateTime(1950, 2090)),
+             requires=['reference.day <= 28'],
+             regex_env={'month_regex': 'none', 'relative_month_regex': {'mode': 'match', 'groups': {'order': '"ord"'}}},
+             ensures=[('day-N-of-the-month-swift-months-from-the-reference-month',
+                       f'result.success and result.timex == date_str({_SH(0)}, {_SH(1)}, N) and '
+                       f'result.future_value == date_with(ordinal({_SH(0)}, {_SH(1)}, N), 0) and result.past_value == result.future_value')],
+             note='"the third of next month"; reference day <= 28 so that the month shift itself is defined for every implementation'),
+]
+
+# ---- "the month of 5 december 2018": the calendar month of a date, also for December (C11: start before end)
+CONTRACTS += [
+    Contract('dp.dateperiod.month_range_from_date', BDP + '__get_month_range_from_date', ['C11', 'C08'],
+             params=dict(seed_date=DateTime(1950, 2090)),
+             ensures=[('from-the-first-of-that-month-to-the-first-of-the-next',
+                       'result[0] == date_with(ordinal(seed_date.year, seed_date.month, 1), 0) and '
+                       'result[1] == date_with(ordinal(shift_month(seed_date.year, seed_date.month, 1)[0], '
+                       'shift_month(seed_date.year, seed_date.month, 1)[1], 1), 0)'),
+                      ('start-before-end', 'result[0] < result[1]')]),
+]
+
+# ---- "the 30th", "the 5th": a bare day number is the nearest such day on or after / before the reference, in the neighbouring
+#      month when needed, also over the year boundary (C09); a day the neighbouring month does not have is reported as unresolved
+_SN_CFG = Config(values=dict(ordinal_extractor=Config(funcs=dict(extract=Returns(ListOf(ER(text=Word(1, 6)), 1)))),
+                             integer_extractor=Config(funcs=dict(extract=Returns(ListOf(ER(text=Word(1, 6)), 1)))),
+                             number_parser=Config(funcs=dict(parse=Returns(_PARSE_NUM)))))
+_NEXT = lambda k: f'shift_month(reference.year, reference.month, 1)[{k}]'
+_PREV = lambda k: f'shift_month(reference.year, reference.month, -1)[{k}]'
+CONTRACTS += [
+    Contract('dp.single_number.day_of_the_nearest_month', BD + 'parse_single_number', ['C09'],
+             params=dict(N=Int(1, 31), self=Rec(DT + 'base_date.py::BaseDateParser', dict(config=_SN_CFG)), source=Str(),
+                         reference=DateTime(1950, 2090, midnight=True)),
+             requires=['N <= days_in_month(reference.year, reference.month)'],
+             ensures=[('timex-leaves-year-and-month-open', 'result.success and result.timex == "XXXX-XX-" + fmt(N, 2)'),
+                      ('future-is-this-month-or-the-next',
+                       f'result.future_value == (date_with(ordinal(reference.year, reference.month, N), 0) if N >= reference.day else '
+                       f'(date_with(ordinal({_NEXT(0)}, {_NEXT(1)}, N), 0) if N <= days_in_month({_NEXT(0)}, {_NEXT(1)}) else date_with(1, 0)))'),
+                      ('past-is-this-month-or-the-previous',
+                       f'result.past_value == (date_with(ordinal(reference.year, reference.month, N), 0) if N < reference.day else '
+                       f'(date_with(ordinal({_PREV(0)}, {_PREV(1)}, N), 0) if N <= days_in_month({_PREV(0)}, {_PREV(1)}) else date_with(1, 0)))')],
+             note='midnight reference (the non-midnight comparison is the KF-C09-1 family); a day number the current month does not have '
+                  'is outside this contract'),
+]
+
+# ---- "the last friday of may", "the first monday of next month": the N-th weekday of a month (C08)
+_CD_WD = '(7 if weekday == 0 else weekday)'
+_CD_FIRST = 'ordinal(year, month, 1)'
+CONTRACTS += [
+    Contract('dp.compute_date.nth_weekday', BD + '_compute_date', ['C08'], modular=['id:dt.this', 'id:dt.next'], returns=DateTime(1950, 2091),
+             params=dict(self=Rec(DT + 'base_date.py::BaseDateParser', dict(config=Config())), cardinal=Int(1, 5), weekday=Int(0, 6), month=Int(1, 12), year=Int(1950, 2090)),
+             ensures=[('the-first-such-weekday-of-the-month-plus-whole-weeks',
+                       f'ordinal_of(result) == {_CD_FIRST} + ({_CD_WD} - 1 - weekday_of_ordinal({_CD_FIRST})) % 7 + 7 * (cardinal - 1) and '
+                       'sec_of_day(result) == 0')],
+             note='may run into the following month for a fifth weekday the month does not have (the caller steps back a week); must '
+                  'not raise'),
+]
+
+CONTRACTS += [
+    Contract('dp.env.compute_date', BD + '_compute_date', ['C08'], returns=DateTime(1950, 2091),
+             params=dict(self=Opaque(), cardinal=Int(1, 5), weekday=Int(0, 6), month=Int(1, 12), year=Int(1950, 2090)),
+             ensures=[('the-first-such-weekday-of-the-month-plus-whole-weeks',
+                       f'ordinal_of(result) == {_CD_FIRST} + ({_CD_WD} - 1 - weekday_of_ordinal({_CD_FIRST})) % 7 + 7 * (cardinal - 1) and '
+                       'sec_of_day(result) == 0')],
+             assumed='the same clause is proved on the real function as dp.compute_date.nth_weekday (this copy only has an opaque self, '
+                     'so that it can stand for the call inside parse_weekday_of_month)'),
+]
+_WOM_CFG = Config(tables=dict(cardinal_map=Map('str', 'int', 1, 5), day_of_week=Map('str', 'int', 0, 6, total=True),
+                              month_of_year=Map('str', 'int', 1, 12)),
+                  funcs=dict(is_cardinal_last=Returns(Expr('is_last')), get_swift_month=Returns(Expr('swift'))))
+_WOM_WD = '(7 if self.config.day_of_week[wds] == 0 else self.config.day_of_week[wds])'
+_WOM_C = '(5 if is_last else self.config.cardinal_map[cs])'
+_WOM_FIRST = f'ordinal({_SH(0)}, {_SH(1)}, 1)'
+CONTRACTS += [
+    Contract('dp.weekday_of_month.relative_month', BD + 'parse_weekday_of_month', ['C08'], modular=['id:dp.env.compute_date'],
+             params=dict(swift=Int(-1, 1), is_last=Bool(), cs=Str(), wds=Str(),
+                         self=Rec(DT + 'base_date.py::BaseDateParser', dict(config=_WOM_CFG)), source=Str(), reference=DateTime(1951, 2089)),
+             requires=['cs in self.config.cardinal_map'],
+             regex_env={'week_day_of_month_regex': {'mode': 'match', 'groups': {'cardinal': 'cs', 'weekday': 'wds', 'month': '""'}}},
+             ensures=[('resolved-without-raising-for-every-reference-day-and-month', 'result.success and result.past_value == result.future_value'),
+                      ('steps-back-whole-weeks-only',
+                       f'ordinal_of(result.future_value) == {_WOM_FIRST} + ({_WOM_WD} - 1 - weekday_of_ordinal({_WOM_FIRST})) % 7 + 7 * ({_WOM_C} - 1) or '
+                       f'ordinal_of(result.future_value) == {_WOM_FIRST} + ({_WOM_WD} - 1 - weekday_of_ordinal({_WOM_FIRST})) % 7 + 7 * ({_WOM_C} - 2)')],
+             note='a fifth weekday that the month does not have is read as the last one; every reference day incl. 29-31'),
+]
